@@ -710,3 +710,32 @@ MANIFEST_TEXT = {
         "technique": "runtime monitoring: reference-model oracle (truth tables) over exhaustive n=3 + seeded random executions",
     },
 }
+
+# Additions made after the seeded-change rounds (DESIGN.md sections 7 and 12): what the checks cover in
+# addition to the description above.
+_EXTRA = {
+    "C01": " Also: rejected and panicking add_named_vars batches and level-wise gc inside the histories; MTBDD and TDD value-table canonicity inside their history monitors (incl. reordering with live nodes); 786k-node diagrams rebuilt after concurrent reorderings on 2..8 workers.",
+    "C02": " Also: every split depth and hostile eval argument lists (shuffled, repeated, omitted, after rejected calls); 13..16-variable operands under the automatic split depth; managers with 31..200 variables; every edge-level entry point and every trait default of BooleanFunction; single-threaded function types and the pointer-based manager.",
+    "C03": " Also: both node stores; after every variable-bookkeeping call of the C16 manager monitor; after concurrent reorderings of 786k-node diagrams.",
+    "C04": " Also: every split depth; 13..16-variable operands under the automatic split depth; managers with 31..200 variables; edge-level entry points, the trait-default apply-quantify forms, concurrently created substitutions, MTBDD restrict.",
+    "C05": " Also: a large-store probe (66000..150000 slots, chunked pre-allocation), MTBDD terminals, histories run from inside a scope of a second manager.",
+    "C06": " Also: on the pointer-based manager; level-wise gc, rejected variable batches and concurrently created substitutions between repetitions.",
+    "C07": " Also: on the pointer-based manager, with concurrently created substitutions, and with the calling thread bound to another manager.",
+    "C08": " Also: model counts of sub-functions through a cache kept across the reorderings; 786k-node diagrams on 2..8 workers (concurrent paths, empty levels, odd level counts); MTBDD and TDD reorderings with live nodes (TDD on both node stores).",
+    "C09": " Also: every split depth; dense families over 13..16 variables under the automatic split depth; edge-level entry points; eval after rejected calls; single-threaded function types.",
+    "C10": " Also: reorderings with live nodes and exact node/terminal counts for the new order; single-threaded function types.",
+    "C11": " Also: reorderings of 200 live functions (both node stores); eval with omitted / repeated arguments, also over 40 variables.",
+    "C12": " Also: epoch and variable count changing in the same call; single-threaded function types and the pointer-based manager.",
+    "C13": " Also: one sampling cache kept across reordering, other handles, gc and dropped-and-recollected functions; single-threaded function types and the pointer-based manager.",
+    "C14": " Also: the sweeps repeated from inside a scope of a second manager (allocation paths of threads bound to another store, with and without worker threads) and for DDDMP imports.",
+    "C15": " Also: files with thousands of nodes, imports into larger managers, numbers beyond 64 bits, multi-byte names.",
+    "C16": " Also: the manager monitor on both node stores; histories with rejected batches and a panicking name iterator.",
+    "C17": " Also: an element type without drop glue.",
+    "C18": " Also: variable orders given as trees with name records before and after them.",
+    "C20": " Also: 786k-node reorderings and the TDD history monitor on the pointer-based manager.",
+}
+for _k, _v in _EXTRA.items():
+    MANIFEST_TEXT[_k]["text"] += _v
+MANIFEST_TEXT["C08"]["note"] = "Trusted: truth tables, audits. Minimal-swap oracle brute-forced for n <= 7 only."
+MANIFEST_TEXT["C11"]["note"] = "Trusted: literal truth tables in harness/src/mon/c11.rs."
+MANIFEST_TEXT["C16"]["note"] = "Trusted: name model in harness/src/mon/c16.rs."
